@@ -602,7 +602,7 @@ impl<'a> Decoder<'a> {
                 out.push(d.clone());
                 continue;
             }
-            let is_opt = f.ty.is_opt();
+            let is_opt = def.option_aware && f.ty.is_opt();
             if removed.iter().any(|n| *n == f.name) {
                 if is_opt {
                     self.probe("model_removed_optional_none");
@@ -711,6 +711,7 @@ impl<'a> Decoder<'a> {
 pub fn tuple_def(tys: &[Ty]) -> RecordDef {
     RecordDef {
         name: format!("Tuple{}", tys.len()),
+        option_aware: false,
         steps: vec![],
         fields: tys
             .iter()
